@@ -1,11 +1,11 @@
 package cache
 
 import (
+	"io"
 	"io/ioutil"
 	"os"
 	"path/filepath"
 
-	"github.com/mattetti/filebuffer"
 	"github.com/pojntfx/stfs/pkg/config"
 	"github.com/spf13/afero"
 )
@@ -23,21 +23,83 @@ func (f fileWithSize) Size() (int64, error) {
 	return info.Size(), nil
 }
 
-type filebufferWithSize struct {
-	*filebuffer.Buffer
+// memoryBuffer is a byte slice with a cursor. Like a file, a write replaces the bytes at the cursor and only extends the
+// content when it reaches behind its end; whatever lies behind the bytes written stays as it is.
+type memoryBuffer struct {
+	data   []byte
+	cursor int64
 }
 
-func (f filebufferWithSize) Size() (int64, error) {
-	return int64(f.Buff.Len()), nil
+func (b *memoryBuffer) Read(p []byte) (int, error) {
+	if b.cursor >= int64(len(b.data)) {
+		return 0, io.EOF
+	}
+
+	n := copy(p, b.data[b.cursor:])
+	b.cursor += int64(n)
+
+	return n, nil
 }
 
-func (f filebufferWithSize) Sync() error {
+func (b *memoryBuffer) Write(p []byte) (int, error) {
+	end := b.cursor + int64(len(p))
+	if missing := end - int64(len(b.data)); missing > 0 {
+		// A cursor behind the end leaves a gap; fill it with zeros like a file does
+		b.data = append(b.data, make([]byte, missing)...)
+	}
+
+	copy(b.data[b.cursor:end], p)
+	b.cursor = end
+
+	return len(p), nil
+}
+
+func (b *memoryBuffer) Seek(offset int64, whence int) (int64, error) {
+	dst := offset
+	switch whence {
+	case io.SeekStart:
+	case io.SeekCurrent:
+		dst += b.cursor
+	case io.SeekEnd:
+		dst += int64(len(b.data))
+	default:
+		return 0, os.ErrInvalid
+	}
+
+	if dst < 0 {
+		return 0, os.ErrInvalid
+	}
+
+	b.cursor = dst
+
+	return dst, nil
+}
+
+func (b *memoryBuffer) Close() error {
+	return nil
+}
+
+func (b *memoryBuffer) Size() (int64, error) {
+	return int64(len(b.data)), nil
+}
+
+func (b *memoryBuffer) Sync() error {
 	// No need to sync a in-memory buffer
 	return nil
 }
 
-func (f filebufferWithSize) Truncate(size int64) error {
-	f.Buff.Truncate(int(size))
+func (b *memoryBuffer) Truncate(size int64) error {
+	if size < 0 {
+		return os.ErrInvalid
+	}
+
+	if missing := size - int64(len(b.data)); missing > 0 {
+		b.data = append(b.data, make([]byte, missing)...)
+
+		return nil
+	}
+
+	b.data = b.data[:size]
 
 	return nil
 }
@@ -48,7 +110,7 @@ func NewCacheWrite(
 ) (cache WriteCache, cleanup func() error, err error) {
 	switch cacheType {
 	case config.WriteCacheTypeMemory:
-		buff := &filebufferWithSize{filebuffer.New([]byte{})}
+		buff := &memoryBuffer{data: []byte{}}
 
 		return buff, func() error {
 			buff = nil
